@@ -41,13 +41,15 @@ def one_history(args):
     d = vlib.scratch_dir('wl')
     dbdir = os.path.join(d, 'db')
     try:
-        if family is None:
+        if callable(family):
+            name, opts, lines = family(rng, dbdir, os.path.join(d, 'img'), nops)
+        elif family is None:
             name, opts, lines = wl_gen.gen_history(rng, dbdir, nops)
         else:
             opts = rng.choice(wl_gen.opt_sets(rng, None))
             name = family
             lines = dict(wl_gen.FAMILIES)[family](rng, dbdir, opts, nops)
-        rc, out, err = run_script(wl_bin, lines)
+        rc, out, err = run_script(wl_bin, lines, timeout=1800)
         problems = []
         if rc != 0:
             first = ''
@@ -83,8 +85,8 @@ def run_histories(chk, n, nops, tag_filter, label, family=None, seed_salt=''):
                 totals[k] = max(totals.get(k, 0), v)
             else:
                 totals[k] = totals.get(k, 0) + v
-        nontrivial = r['stats'].get('flushes', 0) >= 1 and r['stats'].get('compactions', 0) + r['stats'].get('trivialmoves', 0) >= 1
-        chk.note_case((label, r['family'], r['opts'], r['stats'].get('flushes', 0), r['stats'].get('compactions', 0), r['stats'].get('gets', 0), r['transcript_len']), nontrivial)
+        nontrivial = (r['stats'].get('flushes', 0) >= 1 and r['stats'].get('compactions', 0) + r['stats'].get('trivialmoves', 0) >= 1) or r['stats'].get('crashnonempty', 0) >= 5 or r['stats'].get('werr', 0) >= 1
+        chk.note_case((label, r['family'], r['opts'], r['stats'].get('flushes', 0), r['stats'].get('compactions', 0), r['stats'].get('gets', 0), r['stats'].get('crashes', 0), r['transcript_len']), nontrivial)
         for p in r['problems']:
             m = re.match(r'(MISMATCH|VIOLATION)\[([^\]:]*)(?::([^\]]*))?\]', p)
             tag = m.group(2) if m else 'other'
